@@ -94,7 +94,7 @@ def formula(test, aliases):
     return conv(test)
 
 
-def refusals(func, resolver=None, depth=0):
+def refusals(func, resolver=None, depth=0, want="raise"):
     """-> list of {"msg", "guard"} for the reachable raises of an error.
     `resolver(name)` gives the FunctionDef of a method of the same class:
     the refusals of directly called helpers are included (one level), so
@@ -143,6 +143,11 @@ def refusals(func, resolver=None, depth=0):
             if dead:
                 break       # statements after an unconditional exit
             if isinstance(st, (ast.Return, ast.Continue, ast.Break)):
+                if isinstance(st, ast.Return) and want != "raise" and \
+                        isinstance(st.value, ast.Constant) and \
+                        st.value.value is want[1]:
+                    out.append({"msg": f"return {want[1]}",
+                                "guard": list(guard), "line": st.lineno})
                 dead = True
                 continue
             if isinstance(st, ast.If):
@@ -174,12 +179,13 @@ def refusals(func, resolver=None, depth=0):
                 walk(st.finalbody, guard)
             elif isinstance(st, ast.Raise) and st.exc is not None and \
                     "Error" in ast.unparse(st.exc):
-                out.append({"msg": msg_of(st), "guard": list(guard),
-                            "line": st.lineno})
+                if want == "raise":
+                    out.append({"msg": msg_of(st), "guard": list(guard),
+                                "line": st.lineno})
                 dead = True
             if not isinstance(st, (ast.If, ast.For, ast.While, ast.With,
                                    ast.Try, ast.FunctionDef)):
-                for sub in helper_calls(st):
+                for sub in (helper_calls(st) if want == "raise" else []):
                     for ref in refusals(sub, resolver, depth + 1):
                         out.append({"msg": ref["msg"],
                                     "guard": list(guard) + ref["guard"],
@@ -412,3 +418,69 @@ def check_guards(idx, run, rule, specs):
                 sample={"rule": rule, "function": key,
                         "refusal": old["msg"][:60], "ok": wit is None})
     run.count("reviewed refusals compared", total)
+
+
+PRED_SNAPSHOT = os.path.join(HERE, "tables", "predicates.json")
+
+
+def predicate_snapshot(idx, specs):
+    snap = {}
+    for clsname, meth, dangerous in specs:
+        func = _find_func(idx, clsname, meth)
+        snap[f"{clsname}.{meth}"] = {
+            "dangerous": dangerous,
+            "guards": [r["guard"] for r in refusals(
+                func, None, 0, ("return", dangerous))]}
+    return snap
+
+
+def _find_func(idx, clsname, meth):
+    if clsname.startswith("module:"):
+        mod = idx.module(clsname[7:])
+        func = mod.functions.get(meth)
+    else:
+        cls = idx.get_class(clsname)
+        res = idx.find_method(cls, meth)
+        func = res[1] if res else None
+    if func is None:
+        raise AnalysisError(f"{clsname}.{meth} not found")
+    return func
+
+
+def check_predicates(idx, run, rule, specs):
+    """specs: [(Class or 'module:<relpath>', function, dangerous answer)].
+    The set of inputs for which the predicate gives its dangerous answer
+    (e.g. "independent", "never equal", "no increment") must not grow
+    relative to the reviewed snapshot."""
+    if not os.path.exists(PRED_SNAPSHOT):
+        raise AnalysisError("tables/predicates.json is missing")
+    with open(PRED_SNAPSHOT, encoding="utf-8") as fin:
+        snap = json.load(fin)
+    for clsname, meth, dangerous in specs:
+        key = f"{clsname}.{meth}"
+        if key not in snap:
+            raise AnalysisError(f"{key} has no reviewed predicate snapshot")
+        func = _find_func(idx, clsname, meth)
+        old_guards = [[_tuplify(g) for g in guard]
+                      for guard in snap[key]["guards"]]
+        cur = refusals(func, None, 0, ("return", dangerous))
+        where = func.lineno
+        wit = None
+        for c in cur:
+            # is there an input for which this return is taken now and no
+            # reviewed return of the dangerous answer was?
+            got = weaker_witness(c["guard"], old_guards)
+            if got is not None:
+                wit, where = got, c["line"]
+                break
+        mod = idx.module(clsname[7:]) if clsname.startswith("module:") \
+            else idx.find_method(idx.get_class(clsname), meth)[0].module
+        run.check(
+            rule, wit is None, key,
+            f"answers {dangerous} for no more inputs than reviewed",
+            f"{key} now answers {dangerous} under "
+            f"{ {a: v for a, v in (wit or {}).items()} }, where the "
+            f"reviewed version did not: the analysis became more "
+            f"permissive", f"{mod.relpath}:{where}",
+            sample={"rule": rule, "predicate": key,
+                    "dangerous": dangerous, "ok": wit is None})
